@@ -19,12 +19,14 @@ example : calculateTtl 57 = .distance 57 7 ∧ calculateTtl 200 = .value 200 ∧
 
 /-! ### window classifier (all windows, all MSS values — no bound) -/
 
-/-- `detect_win_multiplicator` follows the stated priority for every window and MSS, provided the
-divisor it tries last (`mss + total_header`, saturating) is the implied MTU `mss + 40/60` — or the
-window is a multiple of neither. -/
+/-- `detect_win_multiplicator` follows the stated priority for every (16-bit) window and every MSS,
+when it is given `total_header` = 0 (as `visit_tcp` now does) or the minimal header size: raw for
+window 0 / MSS < 100, first MSS form, largest of 4096…256, first MTU form (Ethernet, Ethernet minus
+headers [minus timestamps], the MTU the MSS implies), raw. Full strength since the repairs
+`fixes/C03-window-*.patch` (no saturated divisor, no IHL-in-words). -/
 theorem detectWin_spec (w m hdrC hdrS : Nat) (ts : Bool) (ver : IpVersion)
     (hver : (ver = .v4 ∧ hdrS = 40) ∨ (ver = .v6 ∧ hdrS = 60))
-    (hlast : lastDiv m hdrC ver = m + hdrS ∨ (¬ Mult w (lastDiv m hdrC ver) ∧ ¬ Mult w (m + hdrS))) :
+    (hh : hdrC = 0 ∨ hdrC = hdrS) (hw : w < 65536) :
     WinOk w (some m) hdrS ts (detectWin w m hdrC ts ver) := by
   unfold WinOk detectWin detectWinT
   simp only [TcpConst.minMss]
@@ -48,32 +50,30 @@ theorem detectWin_spec (w m hdrC hdrS : Nat) (ts : Bool) (ver : IpVersion)
         have hall := hnone hf
         refine ⟨fun p' hp' h0 _ => absurd h0 (hall p' hp'), fun _ => ?_⟩
         simp only []
-        -- MTU forms: rewrite the code's divisor list into the specification's
+        -- MTU forms: the code's divisor list scans like the specification's
         have hlists : firstDiv w (mtuDivs m hdrC ts ver) = firstDiv w (mtuForms m hdrS ts) := by
-          rw [mtuDivs_eq ts ver hm hver, mtuForms_eq]
-          rcases hlast with heq | ⟨h1, h2⟩
-          · rw [heq]
-          · rw [firstDiv_append_not _ h1, firstDiv_append_not _ h2]
+          rw [mtuDivs_eq ts ver hm hver, mtuForms_eq, lastDivs_min ver hver hh]
+          unfold chkAdd16
+          by_cases hfit : m + hdrS ≤ 65535
+          · rw [if_pos hfit]
+          · rw [if_neg hfit, List.append_nil]
+            have hnm : ¬ Mult w (m + hdrS) := by
+              rintro ⟨_, hmod, _⟩
+              rw [Nat.mod_eq_of_lt (by omega)] at hmod
+              omega
+            rw [firstDiv_append_not _ hnm]
         rw [hlists]
         apply firstDiv_clauses w (mtuForms m hdrS ts) WindowSize.mtu
         · intro n h; simp [h]
         · intro h; simp [h]
 
-/-- With the arguments the signature language means (`total_header` = 40/60 or 0) and an implied MTU
-that fits 16 bits, the classifier is exactly the specification. -/
-theorem detectWin_spec_min (w m : Nat) (ts : Bool) (v6 : Bool) (hdrC : Nat)
-    (hh : hdrC = 0 ∨ hdrC = (if v6 then 60 else 40)) (hfit : m + (if v6 then 60 else 40) ≤ 65535) :
-    WinOk w (some m) (if v6 then 60 else 40) ts (detectWin w m hdrC ts (if v6 then .v6 else .v4)) := by
-  apply detectWin_spec
-  · cases v6 <;> simp
-  · left
-    unfold lastDiv satAdd16
-    cases v6 <;> rcases hh with rfl | rfl <;> simp [TcpConst.minTcp4, TcpConst.minTcp6] at * <;> omega
-
 /-- no MSS option: the window is reported raw -/
 theorem detectWin_noMss (w hdrC : Nat) (ts : Bool) (ver : IpVersion) (hdrS : Nat) :
     WinOk w none hdrS ts (detectWin w 0 hdrC ts ver) := by
   simp [WinOk, detectWin, detectWinT, TcpConst.minMss]
+
+example : detectWin 7325 1460 0 false .v4 = .value 7325 ∧ detectWin 4320 1400 0 false .v4 = .mtu 3 ∧
+    detectWin 65535 65495 60 true .v6 = .value 65535 := by decide
 
 example : detectWin 29200 1460 40 true .v4 = .mss 20 ∧ detectWin 8192 1460 40 false .v4 = .mod 4096 ∧
     detectWin 4500 1460 40 false .v4 = .mtu 3 ∧ detectWin 7401 1460 40 false .v4 = .value 7401 := by decide
@@ -206,13 +206,12 @@ example : matchingByMtu TcpConst.mtuTable 1500 = some "Ethernet or modem" ∧
 /-- The signature the model builds is the one the header fields define. -/
 theorem sig_meets_spec (f : Fields) (hwf : f.WF) (a : Area) (hpa : parseArea f.tcp.opts = some a)
     (hpad : a.pad = none ∨ a.pad = some []) (hamb : ¬ a.Ambiguous)
-    (hvalid : ValidFlags f) (hsyn : Syn f)
-    (he : ¬ Huginn.KF.C03.ecnTwice f) (hw : ¬ Huginn.KF.C03.winHeaderWords f) :
+    (hvalid : ValidFlags f) (hsyn : Syn f) :
     SigOk f (modelSig f) := by
   obtain ⟨hlay, hmss, hws, hq⟩ := walked_eq f a hpa hpad
   have hwf' := hwf
   unfold Fields.WF at hwf'
-  obtain ⟨httl, hihl, _, _, _, _, _, _, _, _, _, _, _, htf, _⟩ := hwf'
+  obtain ⟨httl, hihl, _, _, _, _, _, _, _, _, _, _, _, htf, hwin16, _⟩ := hwf'
   obtain ⟨hbv, hbc, hbs, hbsyn, hbty⟩ := role_bits f.tcp.flags htf
   unfold Area.Ambiguous at hamb
   have hl1 : ¬ 1 < (mssValues a).length := fun h => hamb (Or.inl h)
@@ -240,7 +239,7 @@ theorem sig_meets_spec (f : Fields) (hwf : f.WF) (a : Area) (hpa : parseArea f.t
   · -- no duplicates
     simp only [modelSig, hq]
     rw [List.nodup_append]
-    refine ⟨hdr_nodup f hwf he, optQ_nodup _ _ (by unfold wsValues at hl2; omega) (by unfold tsValues at hl3; omega), ?_⟩
+    refine ⟨hdr_nodup f, optQ_nodup _ _ (by unfold wsValues at hl2; omega) (by unfold tsValues at hl3; omega), ?_⟩
     intro x hx y hy hxy
     subst hxy
     exact hdr_not_opt f x (Or.inl (hoptmem x hy)) hx
@@ -281,16 +280,8 @@ theorem sig_meets_spec (f : Fields) (hwf : f.WF) (a : Area) (hpa : parseArea f.t
         have hwin : minHdr f = (if f.ip.v6 then 60 else 40) := rfl
         apply detectWin_spec
         · unfold ver minHdr; cases f.ip.v6 <;> simp
-        · rw [lastDiv_code]
-          unfold Huginn.KF.C03.winHeaderWords at hw
-          simp only [hpa, hm, onOpt] at hw
-          by_cases h1 : min (m + Huginn.KF.C03.codeWinHdr f) 65535 = m + minHdr f
-          · exact Or.inl h1
-          · right
-            constructor
-            · intro hmul; exact hw ⟨h1, Or.inl hmul⟩
-            · intro hmul; exact hw ⟨h1, Or.inr hmul⟩
-
+        · exact Or.inl rfl
+        · exact hwin16
 
 /-- Inside the known-finding classes too: version, ittl, olen and pclass of the signature the model
 builds are always the ones the headers define (they do not depend on the option walk). -/
@@ -324,7 +315,7 @@ theorem render_meets_spec_partial (f : Fields) (hwf : f.WF) (hs : Specified f)
   obtain ⟨_, _, hmf⟩ := ipflag_bits f.ip.flags hfl
   unfold Huginn.KF.C03.any at hk
   simp only [not_or] at hk
-  obtain ⟨hk_eol, hk_role, hk_mtu, hk_ecn, hk_win, hk_bad, _⟩ := hk
+  obtain ⟨hk_eol, hk_role, hk_mtu, hk_bad⟩ := hk
   obtain ⟨hproto, hfrag, hamb⟩ := hs
   have hfrag' : f.ip.v6 = true ∨ (f.ip.fragOff = 0 ∧ ¬ (f.ip.flags &&& IP_MF = IP_MF)) := by
     rcases hfrag with h | ⟨h1, h2⟩
@@ -356,7 +347,7 @@ theorem render_meets_spec_partial (f : Fields) (hwf : f.WF) (hs : Specified f)
         | nil => rfl
         | cons x xs => exact absurd (by simp) hk_eol
     have hamb' : ¬ a.Ambiguous := by simpa only [hpa, onOpt] using hamb
-    have hsig := sig_meets_spec f hwf a hpa hpad hamb' hvalid hsyn hk_ecn hk_win
+    have hsig := sig_meets_spec f hwf a hpa hpad hamb' hvalid hsyn
     rw [process_ok f hproto hfrag' hv]
     simp only [hvalid, not_true_eq_false, if_false, hsyn]
     by_cases hack : Ack f
@@ -484,26 +475,31 @@ theorem kf_mtuFromHeaderLengths_witness :
       (∃ r, process w = .ok r ∧ r.mtu = some 1484) := by
   refine ⟨by decide +kernel, by decide +kernel, by decide +kernel, by decide +kernel, _, rfl, by decide +kernel⟩
 
-/-- (d) ECT in the IP header and ECE+CWR: `ecn` twice -/
-theorem kf_ecnTwice_witness :
+/-- repaired (fixes/C03-ecn-quirk-once.patch): ECT in the IP header and ECE+CWR give `ecn` once.
+The 20 option bytes of `linuxSyn` keep the MTU right, so the whole report meets the specification. -/
+theorem fixed_ecnTwice_regression :
     let w : Fields := { linuxSyn with ip := { linuxSyn.ip with ecn := 2 }, tcp := { linuxSyn.tcp with flags := 194 } }
-    w.WF ∧ Specified w ∧ Huginn.KF.C03.ecnTwice w ∧ ¬ Holds w (process w) := by decide +kernel
+    w.WF ∧ Specified w ∧ ¬ Huginn.KF.C03.any w ∧ Holds w (process w) := by decide +kernel
 
-/-- (e) window 7325 = 5·(1460+5) with 20 option bytes (so that the MTU is right): `mtu*5` -/
-theorem kf_winHeaderWords_witness :
-    let w : Fields := { withOpts [2, 4, 5, 180, 1, 1, 1, 1, 1, 1, 1, 1, 1, 1, 1, 1, 1, 1, 1, 1] 10 with
-      tcp := { (withOpts [2, 4, 5, 180, 1, 1, 1, 1, 1, 1, 1, 1, 1, 1, 1, 1, 1, 1, 1, 1] 10).tcp with window := 7325 } }
-    w.WF ∧ Specified w ∧ Huginn.KF.C03.winHeaderWords w ∧ ¬ Holds w (process w) := by decide +kernel
+/-- repaired (fixes/C03-window-classifier-minimal-headers.patch): window 7325 = 5·(1460+5) is raw,
+window 4320 = 3·(1400+40) is `mtu*3` -/
+theorem fixed_winHeaderWords_regression :
+    let o := [2, 4, 5, 180, 1, 1, 1, 1, 1, 1, 1, 1, 1, 1, 1, 1, 1, 1, 1, 1]
+    let w1 : Fields := { withOpts o 10 with tcp := { (withOpts o 10).tcp with window := 7325 } }
+    let o2 := [2, 4, 5, 120, 1, 1, 1, 1, 1, 1, 1, 1, 1, 1, 1, 1, 1, 1, 1, 1]
+    let w2 : Fields := { withOpts o2 10 with tcp := { (withOpts o2 10).tcp with window := 4320 } }
+    Holds w1 (process w1) ∧ Holds w2 (process w2) ∧
+      (∃ r s, process w2 = .ok r ∧ r.syn = some s ∧ s.wsize = .mtu 3) := by
+  refine ⟨by decide +kernel, by decide +kernel, _, _, rfl, rfl, by decide +kernel⟩
 
 /-- (g) window scale without payload (`03 02`): no `bad` quirk -/
 theorem kf_badNeverReported_witness :
     let w := withOpts [3, 2, 1, 1] 6
     w.WF ∧ Specified w ∧ Huginn.KF.C03.badNeverReported w ∧ ¬ Holds w (process w) := by decide +kernel
 
-/-- (h) pure level: window 65535, MSS 65495, IPv6 with the right header size: `mtu*1` -/
-theorem kf_winSaturatedMtu_witness :
-    Huginn.KF.C03.winSaturatedMtuPure 65535 65495 60 ∧
-    ¬ WinOk 65535 (some 65495) 60 true (detectWin 65535 65495 60 true .v6) := by decide +kernel
+/-- repaired (fixes/C03-window-mtu-no-saturated-divisor.patch): window 65535 with MSS 65495 is raw -/
+theorem fixed_winSaturatedMtu_regression :
+    WinOk 65535 (some 65495) 60 true (detectWin 65535 65495 60 true .v6) := by decide +kernel
 
 /-- the full statement is false for the current code -/
 theorem full_statement_fails : ¬ FullRenderMeetsSpec := by
